@@ -39,6 +39,10 @@ def run(ctx):
             classes = sorted(rng.sample(range(-9, 30), c))
             n = rng.randint(1, 12)
             yv = [rng.choice(classes) for _ in range(n)]
+            if rng.random() < 0.4:
+                # validation labels that no training class has (below, between, above the classes): never predicted correctly
+                for k in rng.sample(range(n), rng.randint(1, max(1, n // 2))):
+                    yv[k] = rng.choice([classes[0] - 2, classes[-1] + 3] + [c + 1 for c in classes if c + 1 not in classes])
             pred = [rng.choice(classes) for _ in range(n)]
             yield classes, yv, pred
 
